@@ -1,51 +1,102 @@
 ------------------------------ MODULE KMClient ------------------------------
 (* C19 - the client never sends private keys and installs credentials safely.              *)
 (*                                                                                       *)
-(* The client generates key pairs according to its key preference, authenticates, sends     *)
-(* certificate requests and installs what it gets into the SSH agent (replacing entries      *)
-(* with the same label) or into files.  `wire` collects what leaves the machine as tagged     *)
-(* items; a key k contributes "pub" and "priv" halves.                                       *)
+(* One client run: generate three key pairs (x509, main ssh - both of the preferred type -   *)
+(* and an Ed25519 ssh key), authenticate (password, then possibly a second factor), send one   *)
+(* certificate request per key with the PUBLIC half, install what comes back: ssh              *)
+(* certificates into the agent under a label (replacing every entry with that label), or -      *)
+(* when no agent takes them - into files only the user can read; the x509 key always into a      *)
+(* file.  `wire` collects what leaves the machine as tagged items.                              *)
+(* The agent may already hold entries: leftovers under the client's own labels (valid or         *)
+(* expired, one or several) and entries of other tools.                                          *)
 EXTENDS Integers, Sequences, FiniteSets, TLC
 
-CONSTANTS Prefs, AgentPresent, AsBuilt, ServerCertifies
+CONSTANTS Prefs,            \* key preferences the user can configure
+          AgentModes,       \* "ok" (takes certificates), "nolifetime" (refuses entries with a lifetime: old Windows agents),
+                            \* "refuse" (takes nothing), "none" (no agent)
+          SecondFactors,    \* "none", "totp", "vip"
+          ServerCertifies,  \* key types the server signs
+          AsBuilt
 Has(f) == f \in AsBuilt
 
-\* what the client generates for a preference: an x509 key, a main ssh key (both of the preferred type) and an Ed25519 ssh key
-KindOf(pref) == pref
 Slots == {"x509", "sshmain", "sshed"}
-KeyKind(pref, slot) == IF slot = "sshed" THEN "ed25519" ELSE KindOf(pref)
+KeyKind(pref, slot) == IF slot = "sshed" THEN "ed25519" ELSE pref
 LabelOf(pref, slot) == IF slot = "sshed" THEN "keymaster-ed25519-user" ELSE "keymaster-" \o pref \o "-user"
+OwnLabels(pref) == {LabelOf(pref, "sshmain"), LabelOf(pref, "sshed")}
+Other == "other-tool-user"
 
-VARIABLES pref, phase, wire, agentCerts, files, rounds
-vars == <<pref, phase, wire, agentCerts, files, rounds>>
+\* an agent entry
+Entry(l, e, mine) == [label |-> l, expired |-> e, mine |-> mine]
+\* what an agent that has been in use may hold when the client starts
+Leftovers(pref) == {<<>>,
+                    <<Entry(LabelOf(pref, "sshmain"), FALSE, FALSE)>>,
+                    <<Entry(LabelOf(pref, "sshmain"), TRUE, FALSE), Entry(Other, FALSE, FALSE)>>,
+                    <<Entry(LabelOf(pref, "sshmain"), TRUE, FALSE), Entry(LabelOf(pref, "sshed"), FALSE, FALSE),
+                      Entry(Other, FALSE, FALSE), Entry(LabelOf(pref, "sshmain"), FALSE, FALSE)>>}
 
-Init == /\ pref \in Prefs /\ phase = "start" /\ wire = {} /\ agentCerts = <<>> /\ files = {} /\ rounds = 0
-Generate == /\ phase = "start" /\ phase' = "generated" /\ UNCHANGED <<pref, wire, agentCerts, files, rounds>>
-Login == /\ phase = "generated" /\ phase' = "loggedin" /\ wire' = wire \cup {<<"password", "user">>}
-         /\ UNCHANGED <<pref, agentCerts, files, rounds>>
-\* one request per slot: the PUBLIC half of that key is sent
-Request == /\ phase = "loggedin"
-           /\ wire' = wire \cup {<<"pub", s>> : s \in Slots} \cup (IF Has("SendsPrivate") THEN {<<"priv", "x509">>} ELSE {})
-           /\ phase' = IF \A s \in Slots \ {"sshed"} : KeyKind(pref, s) \in ServerCertifies THEN "certified" ELSE "refused"
-           /\ UNCHANGED <<pref, agentCerts, files, rounds>>
-Install == /\ phase = "certified"
-           /\ IF AgentPresent
-              THEN /\ agentCerts' = (IF Has("AppendsInAgent") THEN agentCerts
-                                     ELSE SelectSeq(agentCerts, LAMBDA l : l \notin {LabelOf(pref, "sshmain"), LabelOf(pref, "sshed")}))
-                                    \o <<LabelOf(pref, "sshed"), LabelOf(pref, "sshmain")>>
+VARIABLES pref, mode, factor, phase, wire, agent, files, certs, rounds
+vars == <<pref, mode, factor, phase, wire, agent, files, certs, rounds>>
+
+Init == /\ pref \in Prefs /\ mode \in AgentModes /\ factor \in SecondFactors
+        /\ phase = "start" /\ wire = {} /\ files = {} /\ certs = {} /\ rounds = 0
+        /\ agent \in (IF mode = "none" THEN {<<>>} ELSE Leftovers(pref))
+
+Generate == /\ phase = "start" /\ phase' = "generated" /\ certs' = {}
+            /\ UNCHANGED <<pref, mode, factor, wire, agent, files, rounds>>
+Login == /\ phase = "generated" /\ wire' = wire \cup {<<"password", "user">>}
+         /\ phase' = IF factor = "none" THEN "authenticated" ELSE "needs2fa"
+         /\ UNCHANGED <<pref, mode, factor, agent, files, certs, rounds>>
+SecondFactor == /\ phase = "needs2fa" /\ wire' = wire \cup {<<"otp", factor>>} /\ phase' = "authenticated"
+                /\ UNCHANGED <<pref, mode, factor, agent, files, certs, rounds>>
+\* one request per slot: the PUBLIC half of that key is sent; the Ed25519 request may be refused, the client carries on
+Request(s) == /\ phase = "authenticated" /\ s \notin {c[1] : c \in certs} /\ <<"asked", s>> \notin wire
+              /\ wire' = wire \cup {<<"pub", s>>, <<"asked", s>>}
+                          \cup (IF Has("SendsSeedForEd25519") /\ s = "sshed" THEN {<<"priv", s>>} ELSE {})
+              /\ certs' = IF KeyKind(pref, s) \in ServerCertifies THEN certs \cup {<<s, "cert">>} ELSE certs
+              /\ UNCHANGED <<pref, mode, factor, phase, agent, files, rounds>>
+AllAsked == \A s \in Slots : <<"asked", s>> \in wire
+Got(s) == <<s, "cert">> \in certs
+\* the run fails when the x509 or the main ssh certificate was refused
+Refused == /\ phase = "authenticated" /\ AllAsked /\ ~(Got("x509") /\ Got("sshmain")) /\ phase' = "refused"
+           /\ UNCHANGED <<pref, mode, factor, wire, agent, files, certs, rounds>>
+
+\* installing one ssh certificate in an agent: every entry with the label goes, the new one comes
+Removed(a, l) == IF Has("AppendsInAgent") THEN a
+                 ELSE IF Has("SkipsExpired") THEN SelectSeq(a, LAMBDA e : ~(e.label = l /\ ~e.expired))
+                 ELSE IF Has("RemovesFirstOnly")
+                      THEN (IF \E i \in DOMAIN a : a[i].label = l
+                            THEN LET i == CHOOSE i \in DOMAIN a : a[i].label = l /\ \A j \in 1..(i - 1) : a[j].label # l
+                                 IN SubSeq(a, 1, i - 1) \o SubSeq(a, i + 1, Len(a))
+                            ELSE a)
+                 ELSE SelectSeq(a, LAMBDA e : e.label # l)
+Upsert(a, l) == Append(Removed(a, l), Entry(l, FALSE, TRUE))
+SshSlotsGot == {s \in {"sshed", "sshmain"} : Got(s)}
+KeyFile(s) == [class |-> "sshkey-" \o s, private |-> TRUE, mode |-> IF Has("WorldReadableKey") THEN 420 ELSE 384]
+Install == /\ phase = "authenticated" /\ AllAsked /\ Got("x509") /\ Got("sshmain")
+           /\ IF mode \in {"ok", "nolifetime"}          \* "nolifetime": the second attempt (without a lifetime) succeeds
+              THEN /\ agent' = (IF Got("sshed") THEN Upsert(Upsert(agent, LabelOf(pref, "sshed")), LabelOf(pref, "sshmain"))
+                                ELSE Upsert(agent, LabelOf(pref, "sshmain")))
                    /\ files' = files \cup {[class |-> "x509key", private |-> TRUE, mode |-> 384], [class |-> "x509cert", private |-> FALSE, mode |-> 420]}
-              ELSE /\ agentCerts' = agentCerts
-                   /\ files' = files \cup {[class |-> "x509key", private |-> TRUE, mode |-> 384], [class |-> "x509cert", private |-> FALSE, mode |-> 420],
-                                           [class |-> "sshkey", private |-> TRUE, mode |-> IF Has("WorldReadableKey") THEN 420 ELSE 384],
-                                           [class |-> "sshcert", private |-> FALSE, mode |-> 420]}
-           /\ phase' = "installed" /\ rounds' = rounds + 1 /\ UNCHANGED <<pref, wire>>
-\* the user runs the client again
-Again == /\ phase = "installed" /\ rounds < 2 /\ phase' = "start" /\ UNCHANGED <<pref, wire, agentCerts, files, rounds>>
-Next == Generate \/ Login \/ Request \/ Install \/ Again
+              ELSE /\ agent' = agent
+                   /\ files' = files \cup {[class |-> "x509key", private |-> TRUE, mode |-> 384], [class |-> "x509cert", private |-> FALSE, mode |-> 420]}
+                                      \cup {KeyFile(s) : s \in SshSlotsGot} \cup {[class |-> "sshcert-" \o s, private |-> FALSE, mode |-> 420] : s \in SshSlotsGot}
+           /\ phase' = "installed" /\ rounds' = rounds + 1 /\ UNCHANGED <<pref, mode, factor, wire, certs>>
+\* the user runs the client again (new keys, new certificates)
+Again == /\ phase = "installed" /\ rounds < 2 /\ phase' = "start"
+         /\ wire' = {x \in wire : x[1] # "asked"}
+         /\ UNCHANGED <<pref, mode, factor, agent, files, certs, rounds>>
+Next == Generate \/ Login \/ SecondFactor \/ (\E s \in Slots : Request(s)) \/ Refused \/ Install \/ Again
 Spec == Init /\ [][Next]_vars
 
+\* ------------------------------------------------------------------ the property
 NoPrivateOnWire == \A x \in wire : x[1] # "priv"
 PrivateFilesRestricted == \A f \in files : f.private => f.mode = 384
-OneCertPerLabel == \A i, j \in DOMAIN agentCerts : i # j => agentCerts[i] # agentCerts[j]
+\* after an installation the agent holds exactly one entry under each of the client's labels it installed, and it is the new one
+OneCertPerLabel == phase = "installed" /\ mode \in {"ok", "nolifetime"} =>
+                      \A l \in {LabelOf(pref, s) : s \in SshSlotsGot} :
+                          Cardinality({i \in DOMAIN agent : agent[i].label = l}) = 1 /\ \E i \in DOMAIN agent : agent[i].label = l /\ agent[i].mine
+\* what other tools keep in the agent is none of the client's business
+OtherLabelsKept == [][\A i \in DOMAIN agent : agent[i].label = Other => \E j \in DOMAIN agent' : agent'[j] = agent[i]]_vars
+\* every key type the client can be configured to offer is one the server certifies (the Ed25519 extra may be refused)
 OfferedAreCertified == phase # "refused"
 =============================================================================
